@@ -161,6 +161,19 @@ var peerShort = []string{"Hi", "a", "ok", "é", "-", "x y", "<p>longer <b>html</
 
 func peerText(t *core.Tape) string { return peerShort[t.Draw(len(peerShort))] }
 
+// peerValueObject: a text in JSON-LD's expanded form, as some processors write it (with or without
+// a language, alone or in an array).
+func peerValueObject(t *core.Tape) any {
+	v := map[string]any{"@value": peerText(t)}
+	if t.Bool(1, 2) {
+		v["@language"] = []string{"en", "fr", "und"}[t.Draw(3)]
+	}
+	if t.Bool(1, 3) {
+		return []any{v, map[string]any{"@value": peerText(t), "@language": "de"}}
+	}
+	return v
+}
+
 func peerLangMap(t *core.Tape) map[string]any {
 	m := map[string]any{}
 	for _, l := range []string{"en", "fr", "de", "und"}[:1+t.Draw(4)] {
@@ -203,7 +216,12 @@ func peerNote(t *core.Tape, depth int) map[string]any {
 		"published":    peerTime(t),
 		"sensitive":    t.Bool(1, 2),
 	}
-	switch t.Draw(4) {
+	switch t.Draw(5) {
+	case 4:
+		n["content"] = peerValueObject(t)
+		if t.Bool(1, 2) {
+			n["name"] = peerValueObject(t)
+		}
 	case 0:
 		n["content"] = peerText(t)
 	case 1:
